@@ -48,7 +48,7 @@ def model_line(lattice, objs, ops) -> str:
         if t in 'PDCRBM':
             toks.append(f'{t} {op[1]}')
         elif t in 'FYX':
-            toks.append(f'{t} {op[1]} {enc_mask(op[2])}')
+            toks.append(f'{t} {op[1]} {enc_mask(op[2])}')  # (a container kind in op[3] concerns the implementation only)
         elif t in 'SI':
             toks.append(f'S {op[1]} {enc_opt(op[2])} {enc_opt(op[3])} {enc_opt(op[4])}')
         elif t == 'E':
@@ -109,8 +109,11 @@ def run_impl(lattice, objs, species, ops):
                 segs.append(('B', np.array(tr.base_positions).reshape(-1)))
             elif t == 'F':
                 names = sorted({s for s, b in zip(sp_of[k], op[2]) if b})
-                # masks are always unions of whole species
-                new = tr.filter(names if len(names) != 1 or True else names[0])
+                # masks are always unions of whole species; the names may be handed over in any Collection[str] (op[3])
+                kind = op[3] if len(op) > 3 else 'list'
+                arg = {'list': names, 'tuple': tuple(names), 'set': set(names), 'frozenset': frozenset(names), 'dict-keys': dict.fromkeys(names).keys(),
+                       'str': names[0] if len(names) == 1 else names, 'array': np.array(names)}[kind]
+                new = tr.filter(arg)
                 trajs.append(new)
                 sp_of.append([s for s, b in zip(sp_of[k], op[2]) if b])
                 segs.append(('F', len(trajs) - 1))
